@@ -143,7 +143,6 @@ pub struct OrderedLocalQueue<'l, T: Debug> {
     shared: &'l OrderedWorkStealQueue<T>,
     stealing: AtomicBool,
     queue: &'l SkipMap<c_longlong, Worker<T>>,
-    len: AtomicUsize,
 }
 
 impl<T: Debug> Drop for OrderedLocalQueue<'_, T> {
@@ -174,7 +173,6 @@ impl<'l, T: Debug> OrderedLocalQueue<'l, T> {
             shared,
             stealing: AtomicBool::new(false),
             queue,
-            len: AtomicUsize::new(0),
         }
     }
 
@@ -237,7 +235,15 @@ impl<'l, T: Debug> OrderedLocalQueue<'l, T> {
 
     /// Returns the number of elements in the queue.
     pub fn local_len(&self) -> usize {
-        self.len.load(Ordering::Acquire)
+        // Count what the rings really hold: siblings steal from them directly,
+        // so a cached counter owned by this handle would go stale.
+        self.queue
+            .iter()
+            .map(|entry| {
+                let worker = entry.value();
+                worker.capacity().saturating_sub(worker.spare_capacity())
+            })
+            .sum()
     }
 
     /// Returns the number of elements in the all queues.
@@ -293,10 +299,6 @@ impl<'l, T: Debug> OrderedLocalQueue<'l, T> {
             .push(item)
         {
             self.push_to_global(priority, item);
-        } else {
-            //add count
-            self.len
-                .store(self.local_len().saturating_add(1), Ordering::Release);
         }
     }
 
@@ -305,6 +307,7 @@ impl<'l, T: Debug> OrderedLocalQueue<'l, T> {
         let count = self.local_len() / 2;
         let mut done = 0;
         while done < count {
+            let before = done;
             for entry in self.queue.iter().rev() {
                 if done >= count {
                     break;
@@ -314,10 +317,11 @@ impl<'l, T: Debug> OrderedLocalQueue<'l, T> {
                     done += 1;
                 }
             }
+            if done == before {
+                // nothing left to move (siblings may have stolen meanwhile)
+                break;
+            }
         }
-        // refresh count
-        self.len
-            .store(self.local_len().saturating_sub(count), Ordering::Release);
         //直接放到全局队列
         self.shared.push_with_priority(priority, item);
     }
@@ -426,13 +430,6 @@ impl<'l, T: Debug> OrderedLocalQueue<'l, T> {
                             })
                             .is_ok()
                         {
-                            // refresh local len
-                            self.len.store(
-                                self.local_len().saturating_add(
-                                    into_queue.capacity() - into_queue.spare_capacity(),
-                                ),
-                                Ordering::Release,
-                            );
                             self.release_lock();
                             return self.pop_local();
                         }
@@ -449,9 +446,6 @@ impl<'l, T: Debug> OrderedLocalQueue<'l, T> {
         //从本地队列弹出元素
         for entry in self.queue {
             if let Some(val) = entry.value().pop() {
-                // Decrement the count.
-                self.len
-                    .store(self.local_len().saturating_sub(1), Ordering::Release);
                 return Some(val);
             }
         }
